@@ -414,10 +414,62 @@ def gen_fan(rng):
     return lines, 'fan-' + where
 
 
+def gen_nest(rng):
+    """correctly noded linework with deep disjoint nesting: islands in lakes in islands (3..6 levels), one or two siblings per
+    level, rings as rectangles / diamonds / triangles given as one closed line (any start vertex, either direction) or as two
+    lines, in a random input order"""
+    depth = rng.randint(3, 6)
+    rings = []
+    def ring_in(x0, y0, x1, y1):
+        k = rng.random()
+        if k < 0.6 or x1 - x0 < 4 or y1 - y0 < 4 or (x1 - x0) % 2 or (y1 - y0) % 2:
+            return [(x0, y0), (x1, y0), (x1, y1), (x0, y1)]
+        mx, my = (x0 + x1) // 2, (y0 + y1) // 2
+        if k < 0.8:
+            return [(mx, y0), (x1, my), (mx, y1), (x0, my)]
+        return [(x0, y0), (x1, y0), (mx, y1)]
+    def place(x0, y0, x1, y1, level):
+        r = ring_in(x0, y0, x1, y1); rings.append(r)
+        if level >= depth:
+            return
+        # the children live in a box strictly inside every ring shape used above
+        w, h = x1 - x0, y1 - y0
+        if len(r) == 4 and r[0] == (x0, y0):
+            bx0, by0, bx1, by1 = x0 + rng.randint(1, 2), y0 + rng.randint(1, 2), x1 - rng.randint(1, 2), y1 - rng.randint(1, 2)
+        else:       # diamond / triangle: the middle box of a quarter of the size is inside both
+            bx0, by0, bx1, by1 = x0 + w // 2 - w // 8, y0 + h // 4, x0 + w // 2 + w // 8, y0 + h // 2
+        if bx1 - bx0 < 2 or by1 - by0 < 2:
+            return
+        if rng.random() < 0.35 and bx1 - bx0 >= 7:
+            m = (bx0 + bx1) // 2
+            place(bx0, by0, m - 1, by1, level + 1); place(m + 1, by0, bx1, by1, level + 1)
+        else:
+            place(bx0, by0, bx1, by1, level + 1)
+    S = rng.choice([64, 96, 128])
+    place(0, 0, S, S, 1)
+    if rng.random() < 0.3:
+        place(S + 4, 0, S + 4 + S // 2, S // 2, rng.randint(2, depth))
+    lines = []
+    for r in rings:
+        i = rng.randint(0, len(r) - 1); c = r[i:] + r[:i]
+        if rng.random() < 0.5:
+            c = c[::-1]
+        c = c + [c[0]]
+        if rng.random() < 0.25 and len(c) >= 4:
+            j = rng.randint(1, len(c) - 2); lines += [c[:j + 1], c[j:]]
+        else:
+            lines.append(c)
+    rng.shuffle(lines)
+    return lines, 'nest-%d' % min(depth, 6)
+
+
 def gen_poly(rng):
     """correctly noded linework: subsets of the edges of a triangulated grid (lines meet only at their end points)"""
-    if rng.random() < 0.3:
+    r0 = rng.random()
+    if r0 < 0.25:
         return gen_fan(rng)
+    if r0 < 0.5:
+        return gen_nest(rng)
     W, H = rng.randint(1, 5), rng.randint(1, 4)
     p = rng.choice([0.35, 0.5, 0.65, 0.8, 0.95])
     edges = set()
@@ -655,7 +707,7 @@ def run(ctx):
     judge_all(ctx, drv, cases, shrink=True)
     # self-check of the generators: every stream must have produced its degenerate classes
     st = ctx.notes.get('stats', {})
-    for need in ['node:with_intersection', 'merge:with_degree2', 'poly:with_dangle', 'poly:with_cut', 'poly:with_hole', 'poly:node-degree>=6', 'shared:forward', 'shared:backward',
+    for need in ['node:with_intersection', 'merge:with_degree2', 'poly:with_dangle', 'poly:with_cut', 'poly:with_hole', 'poly:node-degree>=6', 'poly:nesting>=4', 'shared:forward', 'shared:backward',
                  'lr:exact', 'lr:multi', 'lr:negative', 'lr:beyond_end', 'lr:at_vertex']:
         if st.get(need, 0) == 0:
             ctx.broken.append(dict(kind='generator', name='distribution ' + need, detail='no case of class %s was generated' % need))
@@ -999,6 +1051,7 @@ def judge_case(ctx, c, line, o, po, mres, allres, st):
             for _a, _b in zip(_l, _l[1:]):
                 if _a != _b: _deg[_a] = _deg.get(_a, 0) + 1; _deg[_b] = _deg.get(_b, 0) + 1
         if _deg and max(_deg.values()) >= 6: st('poly:node-degree>=6')
+        if str(c.get('label', '')).startswith('nest-') and max([len(rs) for rs in polys] + [0]) >= 2 and len(polys) >= 4: st('poly:nesting>=4')
         ctx.count(line, bool(polys) and (bool(dang) or bool(cuts) or len(polys) > 1))
         names = ['input-noded-no-duplicates', 'polygon-valid', 'edge-once-per-side', 'polygon-edges-are-input-edges', 'edge-accounting', 'dangles-are-the-pruned-edges', 'cut-edges-are-the-bridges', 'polygon-interiors-disjoint']
         if bits[0] != '1':
